@@ -234,6 +234,28 @@ class Obj(Engine):
         except StopRun:
             pass
 
+    _USER_CLASSES = None
+
+    def _element(self, which, a):
+        """A new input / output object: immutable, mutable, or an instance of an application's own
+        subclass of the mutable class (wallets attach bookkeeping to inputs that way) - still a mutable
+        object, to be copied like one."""
+        C = self.C
+        el = conv.txin_from_spec(a['spec'], a['as_mutable']) if which == 'vin' else conv.txout_from_spec(a['spec'], a['as_mutable'])
+        if a['as_mutable'] and (a['i'] + len(a.get('stack') or [])) % 3 == 0:
+            if type(self)._USER_CLASSES is None:
+                class UserTxIn(C.CMutableTxIn):
+                    __slots__ = ['note']
+
+                class UserTxOut(C.CMutableTxOut):
+                    __slots__ = ['note']
+                type(self)._USER_CLASSES = (UserTxIn, UserTxOut)
+            UI, UO = type(self)._USER_CLASSES
+            el = UI(el.prevout, el.scriptSig, el.nSequence) if which == 'vin' else UO(el.nValue, el.scriptPubKey)
+            el.note = 'bookkeeping'
+            self.ctx.probe('user-subclass-of-mutable-' + which)
+        return el
+
     def _h(self, idx):
         if not self.pool:
             return None
@@ -359,7 +381,7 @@ class Obj(Engine):
                 return None
             haswit = h.model.get('wit') is not None and len(h.model['wit']) > 0
             if act == 'append':
-                el = conv.txin_from_spec(a['spec'], a['as_mutable']) if which == 'vin' else conv.txout_from_spec(a['spec'], a['as_mutable'])
+                el = self._element(which, a)
                 lst.append(el)
                 mlst.append(copy.deepcopy(a['spec']))
                 if which == 'vin' and haswit:
@@ -369,7 +391,7 @@ class Obj(Engine):
                 return None
             elif act == 'replace':
                 k = a['i'] % len(lst)
-                el = conv.txin_from_spec(a['spec'], a['as_mutable']) if which == 'vin' else conv.txout_from_spec(a['spec'], a['as_mutable'])
+                el = self._element(which, a)
                 lst[k] = el
                 mlst[k] = copy.deepcopy(a['spec'])
             else:
